@@ -45,7 +45,7 @@ ASSUMPTIONS = ["components do not shield themselves from cancellation; timeout=0
 
 
 def plan(tier: str) -> dict[str, Any]:
-    n = 3000 if tier == "quick" else 200000
+    n = 4000 if tier == "quick" else 400000
     return {"cases": n, "budget_s": 90 if tier == "quick" else 1500, "min_per_shard": 50}
 
 
